@@ -1,3 +1,4 @@
+CONSTANTS Deep = FALSE
 SPECIFICATION TSpec
 INVARIANT Done
 CHECK_DEADLOCK FALSE
